@@ -146,6 +146,12 @@ void hb_access(SimThread *t, uintptr_t a, unsigned sz, bool wr, bool atomic, uin
         a += n; sz -= n;
     }
 }
+bool hb_shared_granule(SimThread *t, uintptr_t a) {
+    Gran *g = gran_find(a >> 3, false);
+    if (!g) return false;
+    for (int i = 0; i < 4; i++) if ((g->s[i].fl & 4) && g->s[i].tid != t->id) return true;
+    return false;
+}
 void hb_clear_range(uintptr_t a, size_t n) {
     uintptr_t lo = a >> 3, hi = (a + n + 7) >> 3;
     for (uintptr_t k = lo; k < hi; k++) { Gran *g = gran_find(k, false); if (g) memset(g->s, 0, sizeof g->s); }
@@ -179,6 +185,9 @@ static inline void plain(void *a, unsigned sz, bool wr, uintptr_t pc) {
             if (o.saved_sp && x + sz + 128 < o.saved_sp && x >= o.stack_lo + 4096 && o.started) violation("stack.use_after_return", "T%d %s %u bytes at %p below the stack pointer of parked thread T%d", t->id, wr ? "writes" : "reads", sz, a, owner);
         }
     }
+    // optional scheduling point in front of a plain access to memory that another thread has touched in this run: makes windows
+    // reachable that are bounded by plain accesses only (a protocol whose atomics were replaced by ordinary variables)
+    if (G.plain_points && !G.fair && hb_shared_granule(t, x)) sched_point(t, SP_PLAIN);
     hb_access(t, x, sz, wr, false, pc);
 }
 extern "C" {
